@@ -130,6 +130,9 @@ pub enum Signer {
     Garbage,
     Empty,
     Truncated,
+    /// the claimed node's OWN key (never generated for attack scripts: this is the node itself speaking
+    /// from a second endpoint, used by by-construction scenarios of multi-homed peers)
+    Genuine,
     /// the attacker's key j, with bytes appended to the 64-byte signature (recovery ids 0 / 1 / 27 / 28
     /// as other signature formats carry them, two zero bytes, an arbitrary byte)
     AdvExtended(u8, u8),
@@ -221,6 +224,15 @@ pub enum Op {
     /// node's application answers a held request with a response of ANOTHER kind (request id intact):
     /// an empty NODES for a PING or TALK request, a PONG for a FINDNODE
     RespondOtherKind { node: u8, sel: u16 },
+    /// node's application sends V a response that quotes the id of a request V sent to ANOTHER node
+    /// (a response of the kind that request asks for)
+    RespondWithForeignId { node: u8, sel: u16 },
+    /// honest peer `peer` sends node `to` a message under its REAL session key whose plaintext does not
+    /// decode (unknown message type / a FINDNODE with distance 300 / cut-off RLP), as a peer speaking
+    /// another protocol revision would
+    UndecodableMessage { peer: u8, to: u8, variant: u8 },
+    /// V submits one request each to `n` contacts at distinct addresses where nobody listens
+    SubmitToMany { n: u16 },
 }
 
 #[derive(Clone, Copy, Debug, PartialEq, Eq, Hash, Serialize, Deserialize)]
@@ -265,6 +277,9 @@ pub struct WireConfig {
     /// session cache capacity of node 0 (V) (default: the crate's 1000)
     #[serde(default)]
     pub v_session_capacity: Option<u8>,
+    /// V listens on IPv4 and IPv6 (dual stack); the wire stays virtual
+    #[serde(default)]
+    pub v_dual_listen: bool,
 }
 
 // ------------------------------------------------------------------------------------------
@@ -398,7 +413,7 @@ pub fn attacker_key(j: u8) -> CombinedKey {
     keys::key(500 + (j % 3) as u32)
 }
 
-fn node_record(key: &CombinedKey, addr: Option<SocketAddr>, v6: Option<(Ipv6Addr, u16)>, seq: u64) -> Enr {
+pub fn node_record(key: &CombinedKey, addr: Option<SocketAddr>, v6: Option<(Ipv6Addr, u16)>, seq: u64) -> Enr {
     let mut b = Enr::builder();
     b.seq(seq);
     if let Some((ip, port)) = v6 {
@@ -416,7 +431,12 @@ async fn spawn_handler(key_idx: u32, enr: &Enr, addr: SocketAddr, cfg: &WireConf
         SocketAddr::V4(a) => (*a.ip(), a.port()),
         _ => unreachable!(),
     };
-    let mut b = ConfigBuilder::new(ListenConfig::Ipv4 { ip, port });
+    let listen = if is_v && cfg.v_dual_listen {
+        ListenConfig::DualStack { ipv4: ip, ipv4_port: port, ipv6: Ipv6Addr::new(0x2001, 0xdb8, 0, 0, 0, 0, 1, 0), ipv6_port: 9100 }
+    } else {
+        ListenConfig::Ipv4 { ip, port }
+    };
+    let mut b = ConfigBuilder::new(listen);
     b.request_timeout(Duration::from_millis(REQUEST_TIMEOUT_MS)).request_retries(cfg.retries);
     if cfg.filter {
         b.enable_packet_filter();
